@@ -500,7 +500,8 @@ def check_contract(c, repo, rng, samples, budget_s=6.0):
     env0 = base_env(repo)
     try:
         req = [compile_clause(r, pnames) for r in c.requires]
-        ens = {k: compile_clause(v, pnames) for k, v in c.ensures.items()}
+        # clauses over skolem witnesses / the sort permutation of the returned list have no native counterpart (the drivers simulate the greedy order)
+        ens = {k: compile_clause(v, pnames) for k, v in c.ensures.items() if not any(t in v for t in ("WIT(", "sort_perm(", "sort_inv("))}
         rai = {k: compile_clause(v, pnames) for k, v in c.raises.items()}
         lets = {k: compile_clause(v, pnames) for k, v in c.lets.items()}
     except SyntaxError as e:
@@ -635,6 +636,8 @@ def replay_input(repo, ident, shown):
         return {"violated": False, "detail": f"raises {got} as the contract says"}
     env["result"] = wrap(res)
     for name, src in c.ensures.items():
+        if any(t in src for t in ("WIT(", "sort_perm(", "sort_inv(")):
+            continue
         try:
             ok = bool(eval(compile_clause(src, pnames), env))
         except Exception as e:      # noqa: BLE001
